@@ -358,7 +358,7 @@ func mutList(r *lib.Rng, l []string, nonEmpty bool) []string {
 func mutMap(r *lib.Rng, m []rh.KV) []rh.KV {
 	m = append([]rh.KV{}, m...)
 	for try := 0; try < 8; try++ {
-		switch r.Intn(7) {
+		switch r.Intn(8) {
 		case 0: // move the key/value boundary over an `=`
 			if len(m) >= 1 {
 				i := r.Intn(len(m))
@@ -400,6 +400,17 @@ func mutMap(r *lib.Rng, m []rh.KV) []rh.KV {
 				i := r.Intn(len(m))
 				m[i].K += word(r, true)
 				return m
+			}
+		case 7: // move one byte between the end of a key and the start of its value
+			if len(m) >= 1 {
+				i := r.Intn(len(m))
+				if len(m[i].V) > 0 && r.Bool() {
+					m[i] = rh.KV{K: m[i].K + m[i].V[:1], V: m[i].V[1:]}
+					return m
+				} else if len(m[i].K) > 0 {
+					m[i] = rh.KV{K: m[i].K[:len(m[i].K)-1], V: m[i].K[len(m[i].K)-1:] + m[i].V}
+					return m
+				}
 			}
 		}
 	}
